@@ -248,6 +248,12 @@ def run(shard, rec, tier, seed):
                 for x in layouts:
                     check_swap(mon, rec, x, m)
                 rec.case(("swap-run", m, r), n=len(layouts))
+        # "multiples 0..255 and beyond": an int has no upper bound; from 256 on only the byte 0 is a multiple
+        for m in (256, 257, 2 ** 15, 2 ** 31 - 1, 2 ** 31, 2 ** 32 + 1, 2 ** 63, 2 ** 64, 10 ** 100, 2 ** 1023, 2 ** 1024, 2 ** 1100, 10 ** 400, 10 ** 4000):
+            for x in (b"", b"\x00", b"\xff", bytes(range(256)), bytes(range(255, -1, -1)), b"\x01\x00\x00\x02\x00\xff\x00\x00\x00\x80", bytes(5) + b"\xff\xfe" + bytes(3)):
+                check_swap(mon, rec, x, m)
+            rec.case(("swap-huge", m.bit_length(), m % 1000003), n=7)
+            rec.count("huge-multiples")
         rec.seen("swap_runs", "run lengths 0..70, 127..129, 255..257, 1023..1025, 4096, 65536, 65537")
     elif kind == "swap_patterns":
         mults = list(range(0, 13)) + [255, 256, 1000]
@@ -264,7 +270,7 @@ def run(shard, rec, tier, seed):
                 for m in ms:
                     check_swap(mon, rec, make_pattern(pat, m), m)
                 rec.case(("swap", pat), nontrivial=L >= 2)
-        for m in (-1, -2, -3, -255, -256, -10 ** 9):
+        for m in (-1, -2, -3, -255, -256, -10 ** 9, -2 ** 64, -10 ** 400):
             for dat in (b"", b"\x00", b"\x07", b"\x01\x02", b"\x01\x02\x03", b"\x03\x06\x09\x0c", bytes(40)):
                 try:
                     mon.call("swap_multiples", dat, m)
